@@ -64,7 +64,7 @@ Fixpoint silent_offline (c : cstate) (h : list op) (obs : list opobs) : bool :=
 Definition oracle (c : ocase) : bool :=
   let '(h, obs) := c in
   let fr := obs_frames obs in
-  let want := entitled Disconnected h in
+  let want := entitled Disconnected 0 h in
   let cl := obs_calls obs in
   let wantc := entitled_calls h in
   Nat.eqb (length obs) (length h)
